@@ -324,10 +324,10 @@ fn cmd_check_inner(m: &HashMap<String, String>) -> i32 {
             J::obj(vec![("run", J::i(r as i64)), ("plan", plan_to_json(&p))])
         })
         .collect();
-    let faults: Vec<J> = (0..N_FAULTS - 1)
+    let faults: Vec<J> = (0..N_FAULTS)
         .map(|i| J::obj(vec![("kind", J::s(FAULT_NAMES[i])), ("configured", J::i(st.fault_cfg[i] as i64)), ("fired", J::i(st.fault_fired[i] as i64))]))
         .collect();
-    let probes: Vec<J> = (0..N_PROBES - 1).map(|i| J::obj(vec![("probe", J::s(PROBE_NAMES[i])), ("hits", J::i(st.probes[i] as i64))])).collect();
+    let probes: Vec<J> = (0..N_PROBES).map(|i| J::obj(vec![("probe", J::s(PROBE_NAMES[i])), ("hits", J::i(st.probes[i] as i64))])).collect();
     let opc: Vec<J> = OpK::ALL
         .iter()
         .filter(|k| st.op_counts[**k as usize] > 0)
@@ -352,6 +352,8 @@ fn cmd_check_inner(m: &HashMap<String, String>) -> i32 {
         ("fault_kinds", J::Arr(faults)),
         ("probes", J::Arr(probes)),
         ("operations", J::Arr(opc)),
+        ("std_adaptors_on_by_ref", J::Arr((0..N_ADAPT as usize).map(|i| J::obj(vec![("method", J::s(ADAPT_NAMES[i])), ("executed", J::i(st.adapt_counts[i] as i64))])).collect())),
+        ("std_consumers_by_value", J::Arr((0..N_CONSUME as usize).map(|i| J::obj(vec![("method", J::s(CONSUME_NAMES[i])), ("executed", J::i(st.consume_counts[i] as i64))])).collect())),
         ("cursor_state_coverage", cov),
         ("cursor_states_total", J::obj(vec![("reachable", J::i(reach as i64)), ("observed", J::i(obs as i64)), ("cancelled", J::i(can as i64)), ("distinct_state_op_transitions", J::i(tr as i64))])),
         ("states", J::i(obs as i64)),
@@ -413,7 +415,7 @@ fn cmd_check_inner(m: &HashMap<String, String>) -> i32 {
     }
     println!(
         "{} runs ({} non-trivial, {} distinct non-trivial), {} steps, {:.1}s; cursor states observed {}/{} cancelled {}/{}; faults fired: {:?}",
-        st.runs, st.runs_nontrivial, res.distinct_nontrivial, st.ops_exec, wall, obs, reach, can, reach, &st.fault_fired[..N_FAULTS - 1]
+        st.runs, st.runs_nontrivial, res.distinct_nontrivial, st.ops_exec, wall, obs, reach, can, reach, &st.fault_fired[..N_FAULTS]
     );
     if exit == EXIT_OK {
         println!("C18 held on everything explored");
